@@ -13,6 +13,7 @@ from ..impl import pipeline_cases as G
 from ..translate import c01 as tr
 
 PROPERTY = "C03"
+CASE_TIMEOUT = 300  # s of wall clock per case in pool workers (runner watchdog): a case that spins forever is a verdict, not exit 2
 THEOREM_MODULE = "NemoVerif.Theorems.C03"
 METHOD = "C03.conv"
 RULE = ("case as in C01 with faults: fault sites = every input rail, every output rail, the dialog action, retrieve_relevant_chunks (1.0); "
